@@ -343,6 +343,7 @@ func runC08(c *Config, r *Report) {
 	c08R8(ic, r)
 	c08R9(ic, r)
 	copiersAlwaysCopy(ic, r, "R08.7")
+	c08R10(ic, r)
 	checkBinPkgOwnership(ic, r, "R08.4")
 	if c.Tier == "thorough" {
 		ic386, err := loadInterp(c, false, "GOARCH=386")
@@ -477,6 +478,9 @@ func allSSAFuncs(sp *ssa.Package) []*ssa.Function {
 
 // ssaFuncName renders parent$n names relative to the package.
 func ssaFuncName(f *ssa.Function) string {
+	if f.Pkg == nil {
+		return f.String() // synthetic wrappers and instantiations belong to no package
+	}
 	s := f.RelString(f.Pkg.Pkg)
 	// canonical name of a renamed anchor function (see roles.go)
 	root := f
@@ -1459,5 +1463,147 @@ func c08R9(ic *IC, r *Report) {
 	}
 	if n == 0 {
 		r.Errorf("R08.9: no goroutine calling through the result of a value generator found (the compiled-function branch of call is expected)")
+	}
+}
+
+func init() {
+	ruleText["R08.10"] = "the status of v, ok := <-ch is the one the receive operation reports: every SetBool of the two-value receive generator takes the ok result of reflect's TryRecv, Recv or Select (directly, or through the matching result of an in-package helper all of whose returns give it), or the constant true under a test of that ok"
+}
+
+// c08R10: round-6 seed. recv and recv2 were refactored onto a helper whose slow path dropped
+// the receive status and returned true: a receiver woken by close(ch) saw (zero, true).
+func c08R10(ic *IC, r *Report) {
+	info := ic.Info
+	fi := ic.fn(r, "recv2")
+	if fi == nil {
+		return
+	}
+	// okResult: position of the "ok" result of a reflect receive operation
+	okPos := func(c *ast.CallExpr) int {
+		switch {
+		case isCallTo(info, c, "reflect.Value.TryRecv", "reflect.Value.Recv"):
+			return 1
+		case isCallTo(info, c, "reflect.Select"):
+			return 2
+		}
+		return -1
+	}
+	// fromRecv: does the identifier obj (defined in body) hold a receive status?
+	var fromRecv func(body ast.Node, obj types.Object, depth int) bool
+	var helperGives func(g *types.Func, pos int, depth int) bool
+	defOf := func(body ast.Node, obj types.Object) (call *ast.CallExpr, pos int, n int) {
+		ast.Inspect(body, func(q ast.Node) bool {
+			as, ok := q.(*ast.AssignStmt)
+			if !ok {
+				return true
+			}
+			for i, l := range as.Lhs {
+				if id := identOf(l); id != nil && info.ObjectOf(id) == obj {
+					n++
+					if len(as.Rhs) == 1 {
+						if c, ok := unparen(as.Rhs[0]).(*ast.CallExpr); ok {
+							call, pos = c, i
+						}
+					}
+				}
+			}
+			return true
+		})
+		return
+	}
+	fromRecv = func(body ast.Node, obj types.Object, depth int) bool {
+		c, pos, n := defOf(body, obj)
+		if c == nil || n != 1 {
+			return false
+		}
+		if p := okPos(c); p >= 0 {
+			return p == pos
+		}
+		if g, ok := calleeOf(info, c).(*types.Func); ok && g.Pkg() == ic.Pk.Types && depth < 2 {
+			return helperGives(g, pos, depth+1)
+		}
+		return false
+	}
+	helperGives = func(g *types.Func, pos int, depth int) bool {
+		gi := ic.G.Funcs[g]
+		if gi == nil || gi.Decl.Body == nil {
+			return false
+		}
+		sg := g.Type().(*types.Signature)
+		okAll, nRet := true, 0
+		ast.Inspect(gi.Decl.Body, func(q ast.Node) bool {
+			if _, ok := q.(*ast.FuncLit); ok {
+				return false
+			}
+			rs, ok := q.(*ast.ReturnStmt)
+			if !ok {
+				return true
+			}
+			nRet++
+			var e ast.Expr
+			if len(rs.Results) == sg.Results().Len() {
+				e = rs.Results[pos]
+			} else if len(rs.Results) == 0 && sg.Results().At(pos).Name() != "" {
+				// named result: its definitions
+				if !fromRecv(gi.Decl.Body, sg.Results().At(pos), depth) {
+					okAll = false
+				}
+				return true
+			}
+			id := identOf(e)
+			if id == nil {
+				okAll = false
+				return true
+			}
+			if id.Name == "false" && info.ObjectOf(id) == types.Universe.Lookup("false") {
+				return true
+			}
+			if obj := info.ObjectOf(id); obj == types.Object(sg.Results().At(pos)) || !fromRecv(gi.Decl.Body, obj, depth) {
+				if obj == types.Object(sg.Results().At(pos)) && fromRecv(gi.Decl.Body, obj, depth) {
+					return true
+				}
+				okAll = false
+			}
+			return true
+		})
+		return okAll && nRet > 0
+	}
+	n := 0
+	for k, fl := range (&c02ctx{ic: ic}).closuresOf(fi) {
+		for _, c := range callsIn(info, fl.Body, true, "reflect.Value.SetBool") {
+			if len(c.Args) != 1 {
+				continue
+			}
+			n++
+			good := false
+			why := types.ExprString(c.Args[0])
+			if id := identOf(c.Args[0]); id != nil {
+				if id.Name == "true" && info.ObjectOf(id) == types.Universe.Lookup("true") {
+					for _, g := range pathGuards(fl.Body, c) {
+						if gid := identOf(g.cond); gid != nil && g.want && fromRecv(fl.Body, info.ObjectOf(gid), 0) {
+							good = true
+						}
+					}
+					// if v, ok := ch.TryRecv(); ok { ... }: the definition sits in the if's init
+					if !good {
+						for _, p := range enclosingPath(fl.Body, c) {
+							if ifs, ok := p.(*ast.IfStmt); ok && ifs.Init != nil {
+								if gid := identOf(ifs.Cond); gid != nil && fromRecv(ifs.Init, info.ObjectOf(gid), 0) {
+									good = true
+								}
+							}
+						}
+					}
+					why = "the constant true, under no test of the status of a receive operation"
+				} else if fromRecv(fl.Body, info.ObjectOf(id), 0) {
+					good = true
+				}
+			}
+			r.Check(good, "R08.10", fmt.Sprintf("recv2/closure#%d/status#%d/from-the-receive-operation", k+1, n), ic.pos(c.Pos()), "the status is the ok result of the receive operation",
+				"the two-value receive sets its status from "+why+", not from the ok result of TryRecv, Recv or Select: a receiver woken because the channel was closed reports (zero value, true) - a consumer loop `for { v, ok := <-ch; if !ok { break } }` never ends and counts values nobody sent")
+		}
+	}
+	if n < 2 {
+		r.Errorf("R08.10: only %d status stores found in the two-value receive generator (fast path, slow path, blocking form expected)", n)
 	}
 }
